@@ -561,9 +561,21 @@ def run_check(plugin_mod, tier, replay=None):
         len(failures), time.time() - t0))
     if unknown:
         i, f = min(unknown, key=lambda x: len(json.dumps(cases[x[0]], default=str)))
+        case, ob, shrunk = cases[i], obs[i], None
+        if hasattr(P, 'shrink'):
+            # minimise the failing case (the plugin re-runs candidates on the implementation and keeps one only while
+            # its oracle still reports a failure that no open finding explains)
+            try:
+                with WorkDir() as work:
+                    res = P.shrink(case, lambda cs: run_impl(plugin_mod, cs, work, timeout=300))
+                if res:
+                    shrunk = {'from_operations': len(case.get('ops', [])) if isinstance(case, dict) else None}
+                    case, ob, f = res
+            except Exception as e:  # noqa  (a failing shrinker must never hide the violation)
+                shrunk = {'error': '%s: %s' % (type(e).__name__, e)}
         rp = os.path.join(ROOT, 'replays', '%s_%s_%d.json' % (prop, tier, seed))
-        write_json(rp, {'property': prop, 'kind': getattr(P, 'REPLAY_KIND', 'input'), 'case': cases[i],
-                        'observed': obs[i], 'failure': f, 'seed': seed, 'plugin': plugin_mod,
+        write_json(rp, {'property': prop, 'kind': getattr(P, 'REPLAY_KIND', 'input'), 'case': case,
+                        'observed': ob, 'failure': f, 'seed': seed, 'plugin': plugin_mod, 'shrunk': shrunk,
                         'also_broken': broken, 'other_failures': len(unknown) - 1})
         print('VIOLATION property=%s replay=%s' % (prop, rp))
         return 1
